@@ -18,9 +18,9 @@ var c11Max = []int{1, 2, 3, 100}
 func init() {
 	register(&PropDef{
 		ID: "C11", Level: "exploration", Quick: 5600, Thorough: 200000, QuickCap: 100,
-		Rule: "two parts per run. small universe: every subset of a 6-name universe (nested directories and the a.txt / a/b / a0 ordering traps) x 7 prefixes x 3 delimiters x 4 page sizes x store = 10752 items, visited by a seeded permutation, 8 per run (the quick tier consumes it completely). random: 3-14 names from a larger universe (unicode, deep nesting, dots, folder-placeholder names ending in the delimiter on the memory store), any prefix of any name or a miss, delimiter from {none, '/', '.', 'ab', '//'}, maxResults 1..n+1; the whole token chain is followed and compared with the listing model (completeness, no duplicates, bytewise order, collapsed prefixes once, page bound, items equal to metadata GETs); missing bucket -> 404, malformed token / maxResults -> 400; distinct = hash of (store, name set, parameters); non-trivial = a listing that needed at least 2 pages or produced a collapsed prefix",
-		Real: []string{"gcsemu handleGcsListBucket, makeBucketListResults (walk.go), memstore/filestore Walk, gcsutil page tokens"},
-		Stub: []string{"HTTP connections (recorder)"},
+		Rule:   "two parts per run. small universe: every subset of a 6-name universe (nested directories and the a.txt / a/b / a0 ordering traps) x 7 prefixes x 3 delimiters x 4 page sizes x store = 10752 items, visited by a seeded permutation, 8 per run (the quick tier consumes it completely). random: 3-14 names from a larger universe (unicode, deep nesting, dots, folder-placeholder names ending in the delimiter on the memory store), any prefix of any name or a miss, delimiter from {none, '/', '.', 'ab', '//'}, maxResults 1..n+1; the whole token chain is followed and compared with the listing model (completeness, no duplicates, bytewise order, collapsed prefixes once, page bound, items equal to metadata GETs); missing bucket -> 404, malformed token / maxResults -> 400; distinct = hash of (store, name set, parameters); non-trivial = a listing that needed at least 2 pages or produced a collapsed prefix",
+		Real:   []string{"gcsemu handleGcsListBucket, makeBucketListResults (walk.go), memstore/filestore Walk, gcsutil page tokens"},
+		Stub:   []string{"HTTP connections (recorder)"},
 		Assume: []string{"only prefix, delimiter, maxResults and pageToken are exercised", "file-store worlds use names representable as files (no name that is a directory prefix of another)", "apart from the store configuration this property is a pure function of (names, parameters): the simulator contributes configuration and enumeration, the deciding power is the listing model"},
 		Run:    runC11,
 		Subspaces: func() map[string]int {
@@ -285,7 +285,9 @@ func runC11(r *Run) {
 		}
 		r.Mix(fmt.Sprintf("s%d.%d.%d.%d", sub, pi, di, mi))
 		nm := names
-		if !checkListing(r, w, m, bucket, nm, c11Prefixes[pi], c11Delims[di], c11Max[mi], func(kind string) string { return c11Witness(r, store, nm, kind, c11Prefixes[pi], c11Delims[di], c11Max[mi]) }) {
+		if !checkListing(r, w, m, bucket, nm, c11Prefixes[pi], c11Delims[di], c11Max[mi], func(kind string) string {
+			return c11Witness(r, store, nm, kind, c11Prefixes[pi], c11Delims[di], c11Max[mi])
+		}) {
 			return
 		}
 	}
